@@ -353,6 +353,16 @@ func registerUserFuns(e *yae.Expr, rec recFn) {
 			return v
 		}))
 	}
+	// len :: forall d. maybe[d] -> num   (a user overload of a BUILT-IN name, registered before the
+	// engine's first compilation: this engine's overload table for len/1 is laid out differently
+	// from a plain engine's)
+	d := types.TyVar("d")
+	e.RegisterFun(val.Fun(types.Fun("len", []*types.Type{types.Maybe(d)}, types.Num), func(args ...*val.Val) *val.Val {
+		if args[0].Maybe().V == nil {
+			return val.Num(0)
+		}
+		return val.Num(1)
+	}))
 	// custom operator  <>  :: str -> str -> str
 	e.RegisterOperator(oper.Operator{Kind: "<>", BP: oper.BP_TERM, Fixity: oper.INFIX_L})
 	e.RegisterFun(val.Fun(types.Fun("<>", []*types.Type{types.Str, types.Str}, types.Str), func(args ...*val.Val) *val.Val {
